@@ -712,6 +712,10 @@ def vocab(seed):
     add("X+7", lambda q0, q1, k: cirq.X(q0).with_tags(7))
     add("X+('a',1)", lambda q0, q1, k: cirq.X(q0).with_tags(("a", 1)))
     add("X+('x',)", lambda q0, q1, k: cirq.X(q0).with_tags(("x",)))
+    add("X+0", lambda q0, q1, k: cirq.X(q0).with_tags(0))                  # falsy raw values (see also prog_raw_tags)
+    add("X+''", lambda q0, q1, k: cirq.X(q0).with_tags(""))
+    add("X+()", lambda q0, q1, k: cirq.X(q0).with_tags(()))
+    add("CZ+('foo',0)", lambda q0, q1, k: cirq.CZ(q0, q1).with_tags("foo", 0))
     add("X+unknown", lambda q0, q1, k: cirq.X(q0).with_tags(_UnknownTag()), rej=True)
     # tag order against the gate-specific flags, type-losing tuples (see final report)
     add("Z+(Cal,PhysZ)", lambda q0, q1, k: cirq.Z(q0).with_tags(cal_x, pz), find="flag_tag_order")
@@ -1205,6 +1209,62 @@ def make_condition_stage():
         return [list(case), repr(C[case[1]][0])] + ([repr(C[case[2]][0])] if case[0] == "pair" else [])
 
     return CaseStage("prog_conditions", cases, run, describe=describe)
+
+
+RAW_TAGS = [0, 0.0, -0.0, "", False, (), b"", 0j, frozenset(),                      # falsy raw values
+            True, 1, -1, 7, 1.0, 0.5, 0.1, 1e-8, 2 ** 24 + 1, 2 ** 40, 1j, b"\x00", " ", "0", "label2",
+            ("",), ((),), ("a", 0), ((), 0), ("a", "b"), (0, "a"), frozenset(["", 0])]
+
+
+def make_raw_tag_stage():
+    """Raw-value tags (the `raw_value` branch of the Tag message) at falsy and boundary values, as operation, moment
+    and circuit tags: alone, after / before a truthy tag, duplicated; and every ordered pair of distinct values."""
+    n = len(RAW_TAGS)
+    q0, q1 = SLOTS[0]
+    arrangements = [lambda t: (t,), lambda t: ("label", t), lambda t: (t, "label"), lambda t: (t, t),
+                    lambda t: (t, "label", t), lambda t: ("label", t, cg.CalibrationTag("x"), t)]
+    cases = [("one", i, 0) for i in range(n)]
+    # (values that are equal under Python's == (0 == 0.0 == False, 1 == 1.0 == True) are the same dict key, hence the
+    #  same tag for cirq as well as for the constants table; they are not mixed in one circuit)
+    cases += [("two", i, j) for i in range(n) for j in range(n) if RAW_TAGS[i] != RAW_TAGS[j]]
+    M = cirq.Moment
+
+    def run(case):
+        kind, i, j = case
+        t = RAW_TAGS[i]
+        circuits = []
+        if kind == "one":
+            for an, arr in enumerate(arrangements):
+                tags = arr(t)
+                circuits += [
+                    (f"op tags #{an}", lambda tags=tags: cirq.Circuit(cirq.X(q0).with_tags(*tags), cirq.X(q0))),
+                    (f"2q op tags #{an}", lambda tags=tags: cirq.Circuit(cirq.CZ(q0, q1).with_tags(*tags),
+                                                                         cirq.Z(q0).with_tags(cg.PhysicalZTag(), *tags))),
+                    (f"controlled op tags #{an}", lambda tags=tags: cirq.Circuit(
+                        cirq.X(q0).with_tags(*tags).with_classical_controls("m"))),
+                    (f"moment tags #{an}", lambda tags=tags: cirq.Circuit([M(cirq.X(q0), tags=tags), M(cirq.X(q0))])),
+                    (f"circuit tags #{an}", lambda tags=tags: cirq.Circuit(cirq.X(q0), tags=tags)),
+                    (f"sub-circuit tags #{an}", lambda tags=tags: cirq.Circuit(cirq.CircuitOperation(
+                        cirq.FrozenCircuit([M(cirq.Y(q0).with_tags(*tags), tags=tags)], tags=tags)))),
+                    (f"everywhere #{an}", lambda tags=tags: cirq.Circuit(
+                        [M(cirq.X(q0).with_tags(*tags), tags=tags), M(cirq.X(q0), tags=tags)], tags=tags)),
+                ]
+        else:
+            u = RAW_TAGS[j]
+            circuits = [
+                ("two tags on one op", lambda: cirq.Circuit(cirq.X(q0).with_tags(t, u), cirq.X(q0).with_tags(u))),
+                ("two ops", lambda: cirq.Circuit([M(cirq.X(q0).with_tags(t)), M(cirq.X(q0).with_tags(u)),
+                                                  M(cirq.X(q0).with_tags(t))])),
+                ("op / moment / circuit", lambda: cirq.Circuit([M(cirq.X(q0).with_tags(t), tags=(u,)),
+                                                                M(cirq.X(q0).with_tags(u), tags=(t, u))], tags=(u, t))),
+            ]
+        unordered = any(isinstance(x, frozenset) for x in (t, RAW_TAGS[j] if kind == "two" else t))
+        return _run_circuits(circuits, unordered)
+
+    def describe(case):
+        return [list(case), repr(RAW_TAGS[case[1]])] + ([repr(RAW_TAGS[case[2]])] if case[0] == "two" else [])
+
+    return CaseStage("prog_raw_tags", cases, run, describe=describe)
 
 
 def make_multi_stage(seed):
@@ -2333,7 +2393,7 @@ def make_invalid_device_stage():
 # =============================================================================================
 
 def stages(tier, seed):
-    st = [make_pair_stage(seed), make_decor_stage(seed), make_multi_stage(seed), make_condition_stage()]
+    st = [make_pair_stage(seed), make_decor_stage(seed), make_multi_stage(seed), make_condition_stage(), make_raw_tag_stage()]
     if tier == "thorough":
         st.append(make_triple_stage(seed))
     st += [make_run_context_stage(seed), make_sweep_v1_stage(seed), make_pack_stage(tier), make_ndarray_stage(), make_results_stage(), make_find_measurements_stage(),
